@@ -31,6 +31,7 @@ func init() {
 			{ID: "C09.R9", Floor: 5, Run: c16r3, Text: "rollback completeness (= C16.R3): the undo of a registration refused by the lock restores every registry field the registration wrote, on every path"},
 			{ID: "C09.R10", Floor: 1, Run: noDeferredEffects, Text: "no deferred state change: a deferred call runs while a panic unwinds; none of the library's deferred calls (if any) has a non-empty mod-set"},
 			{ID: "C09.R11", Floor: 2, Run: narrowCounters, Text: "narrow counters fit their limit: every uint8/uint16 field of package ecs that is incremented has a listed bound (lock bits issued ≤ MaskTotalBits, slots per idMap chunk), and the bound fits the field's type in this build - the lock-bit pool must survive the documented maximum of simultaneously open queries"},
+			{ID: "C09.R12", Floor: 1, Run: lockMaskValidateFirst, Text: "the lock mask validates before it changes: no write to the lock mask or the lock-bit pool precedes a test whose failing edge panics"},
 			{ID: "C09.R6", Floor: 2, Run: c09r6, Text: "the lock-bit pool's array length and the constant in its exhaustion guard (panic edge dominating the array write) both equal MaskTotalBits of the build"},
 		},
 	})
